@@ -14,6 +14,7 @@
 -/
 import CprocVerif.Lemmas.LowerMain
 import CprocVerif.Lemmas.Lower2Main
+import CprocVerif.Model.CSem3
 import CprocVerif.Spec.QbeWf
 
 namespace CprocVerif.C01
@@ -263,6 +264,51 @@ theorem lower2_correct_exact (cs : Bool) (startid : Nat) (f : CSem2.Func) (ρ : 
 def emit2_wf_full : Prop :=
   ∀ (cs : Bool) (startid : Nat) (f : CSem2.Func), CSem2.WT f →
     wf (moduleOf (Lower2.emitFunc cs startid f)) = .ok ()
+
+/-! ## Stage D — programs with calls (model and tie; the theorem is stated, not proved)
+
+  `CSem2.Stmt.call` (`[x =] f(args);`) is lowered by `Lower2.funcstmt` as qbe.c's `EXPRCALL` does (arguments in
+  order, `call $f(w %a, l %b)` with the classes of the converted arguments and of the return type, cast
+  and store of the result) and `CSem3.execP`/`runP` give programs their C meaning; `checks/c01.py` ties both
+  to cproc-qbe, gcc and clang on generated programs (direct calls, self-recursion).  For a single function
+  `CSem2.exec` gives a call no meaning, so `lower2_correct` says nothing about executions that reach one. -/
+
+/-- the functions of a program, emitted one after the other (`mkblock`'s counter runs on) -/
+def emitProg (cs : Bool) : Nat → List CSem2.Func → List Qbe.Func
+  | _, [] => []
+  | startid, f :: fs => Lower2.emitFunc cs startid f :: emitProg cs (Lower2.nextBlockId cs startid f) fs
+
+/-- Stated, NOT proved and not claimed: preservation for programs.  Missing, on top of what is proved for
+    𝔽₂: (1) `Lower2Mem.AInv` for a frame whose slots start at stack index `x.sm ≠ 0`, together with "the
+    allocations below `x.sm` and the globals are unchanged", so that `Mem.popTo` at the callee's `ret` gives the
+    caller its memory back; (2) `Returned`/`Done` with "`stepRet` into the caller's frame" instead of `.done`
+    (`Lower2Ctl.step_ret_item`, `step_ret_end` use `x.rest = []`); (3) the prologue of
+    `Lower2Main.lower2_correct_prog` from `enterFunc` on an arbitrary memory, with a bound on the call depth
+    (the IL stack is 64 MiB: the statement below therefore limits `cfuel`); (4) the case `call` of
+    `sim_stmt`, by the induction on `cfuel` over all functions of the program. -/
+def lower3_correct_full : Prop :=
+  ∀ (cs : Bool) (startid : Nat) (P : CSem3.Prog) (entry : String) (f : CSem2.Func) (ρ : List Int) (v : Int)
+    (ext : Ext), CSem3.wtP P = true → CSem3.lookup P entry = some f → EnvOK cs f.params ρ →
+    (∀ g ∈ P, g.params.length + g.locals.length ≤ 1000) →
+    ∀ cfuel, cfuel ≤ 1000 → CSem3.runP cs cfuel P entry ρ = some v →
+    ∃ fuel₀ r, RetRep f.ret v r ∧ ∀ fuel, fuel₀ ≤ fuel →
+      runFunc (Prog.ofModule ⟨((emitProg cs startid P).map Def.func).toArray⟩) ext entry
+        (argsOf f.params ρ) fuel = ⟨#[], .ret (.scalar r)⟩
+
+/-- `short g(int a) { return a + 1; }  int h(int n) { int t; if (n <= 0) return 1; t = h(n - 1); t = g(t); return t * 2; }` -/
+def exProg : CSem3.Prog :=
+  [{ name := "g", ret := .short, params := [.int], locals := [],
+     body := .ret (.cast .short (.bin .add .int (.param .int 0) (.const .int 1))) },
+   { name := "h", ret := .int, params := [.int], locals := [.int],
+     body := .seq (.decl 1 .int none)
+       (.seq (.ite (.bin .le .int (.param .int 0) (.const .int 0)) (.ret (.const .int 1)))
+       (.seq (.call (some (1, .int)) .int "h" [.bin .sub .int (.param .int 0) (.const .int 1)])
+       (.seq (.call (some (1, .int)) .short "g" [.param .int 1])
+             (.ret (.bin .mul .int (.param .int 1) (.const .int 2)))))) }]
+example : CSem3.wtP exProg = true := by decide
+/-- h(0) = 1, h(n) = 2·(h(n-1) + 1): h(3) = 22 -/
+example : CSem3.runP true 40 exProg "h" [3] = some 22 := by decide
+example : CSem3.runP true 40 exProg "g" [32767] = some (-32768) := by decide
 
 /-! ## Non-vacuity (𝔽₂) -/
 
